@@ -75,7 +75,7 @@ func (l *LineFilterPlanner) doLike(likeOp string) (sql.SQLCondition, error) {
 	if err != nil {
 		return nil, err
 	}
-	enqVal = strings.Trim(enqVal, `'`)
+	enqVal = enqVal[1 : len(enqVal)-1]
 	enqVal = strings.Replace(enqVal, "%", "\\%", -1)
 	enqVal = strings.Replace(enqVal, "_", "\\_", -1)
 	return sql.Eq(
